@@ -64,6 +64,7 @@ ASSUMPTIONS = [
 CAP = 150_000
 CAP_OPS = 600_000
 WATCHDOG_S = 20
+STALL_LIMIT = 150_000   # Python function calls without a rule invocation or a cursor operation (ordinary peak: ~4-8k)
 CAP_COMPILE = 60_000
 
 N_IN = {'quick': 1920, 'thorough': 40320}        # input-side grammars (x ~8 texts x 3 variants)
@@ -72,7 +73,7 @@ N_GR = {'quick': 3040, 'thorough': 64320}        # grammar texts
 SHARDS = {'quick': 16, 'thorough': 96}
 SHARD_TIMEOUT = {'quick': 1800, 'thorough': 7200}
 PEAK_COUNTERS = ('max_polls_input', 'max_polls_compile', 'max_poll_ratio_compile_x100', 'max_cursor_ops',
-                 'max_cursor_ops_over_bound_x100', 'max_polls_over_bound_x100')
+                 'max_cursor_ops_over_bound_x100', 'max_polls_over_bound_x100', 'max_calls_without_clock_progress')
 
 _QUICK_FLOORS = {
     'in_executions': 20000, 'in_failures_judged': 8000, 'in_accepted': 10000, 'render_calls': 18000,
@@ -84,6 +85,7 @@ _QUICK_FLOORS = {
     'in_fail_pos:inside': 1500, 'in_fail_pos:empty-text': 350,
     'in_text:unicode-breaks': 5000, 'in_text:long-line': 250, 'in_text:empty': 350,
     'in_budget_decisive': 19000, 'in_preflight_counting': 7000, 'in_ops_decisive': 6500,
+    'in_preflight_with_call_clock': 7000, 'in_buffer_with_call_clock': 5000, 'in_text:brace-words': 500,
     'gr_texts': 3000, 'gr_rejected_failure_judged': 1000, 'gr_compiled': 380, 'gr_templates': 160,
     'gr_shipped': 240, 'gr_mut:char': 750, 'gr_mut:token': 750, 'gr_followup_parses': 750,
     'gr_budget_decisive': 1400, 'gr_nesting_probe': 2, 'shards_without_unexplained_watchdog': 16,
@@ -136,13 +138,23 @@ def _templates(k):
         ('call-meta', Sq((L.Call('x'), T(','), L.Call('x')))),
         ('const-fails', Sq((L.Opt(M), L.Const('{1/0}'), L.Dot()))),
         ('const-fails-in-rule', Sq((L.Clo(T('a')), L.Call('y'), L.EOF()))),
+        # constants interpolate values captured from the INPUT and are evaluated until they stop changing
+        ('const-interpolates-input', Sq((L.Named('n', L.Call('w')), L.Named('m', L.Call('w')), L.Named('k', L.Const('{n}')),
+                                         L.Clo(L.Dot())))),
+        ('const-interpolates-input-alert', Sq((L.Named('n', L.Call('w')), L.Opt(L.Named('m', L.Call('w'))),
+                                               L.Alert('{n} {m}', 1), L.Const('{m}{n}'), L.Clo(L.Dot())))),
     ]
+
+
+BRACE_WORDS = ['{m}', '{n}', '{n}{n}', '{m}{n}', '{1/0}', '{', '}', '{{n}}', '{m!r}', '{n:>5}', "{'a'*3}", '{[n,m]}', 'a',
+               '{m}{m}{m}', '{__import__}', '"{m}"', "'{n}'", '{n', '5', '{5}', '1e999', '{k}', '{n.x}', '{m[0]}', '\\{n}',
+               '{n}\x00', '{m}{m}', '{x', '{}', '{!r}', "{'{n}'}", '{n!s:{m}}']
 
 
 DIRECTIVE_VARIANTS = [
     {}, {}, {}, {'whitespace': None}, {'whitespace': r'[ \t]+'}, {'nameguard': 'False'}, {'ignorecase': 'True'},
     {'eol_comments': r'#[^\n\r]*'}, {'parseinfo': 'True'}, {'whitespace': r'[ \t\x85]+', 'nameguard': 'True'},
-    {'namechars': '-'},
+    {'namechars': '-'}, {'whitespace': r'\s*'}, {'whitespace': r'[ ]*|\t'},
 ]
 LEXICAL = ('whitespace', 'comments', 'eol_comments', 'nameguard', 'namechars', 'ignorecase')
 
@@ -170,6 +182,8 @@ def input_grammar(rng, i):
         rules = [L.Rule('start', G.normalise(body))]
         if name == 'call-meta':
             rules.append(L.Rule('x', L.Meta(k)))
+        if name.startswith('const-interpolates-input'):
+            rules.append(L.Rule('w', L.Pat(r'\S+')))
         if name == 'const-fails-in-rule':
             rules.append(L.Rule('y', L.Choice((L.Seq((L.Tok('b'), L.Const('{1/0}'))), L.Meta(k)))))
         return L.Grammar(rules, directives), f'template:{name}:{k}'
@@ -237,12 +251,16 @@ def join(rng, parts):
     return out
 
 
-def input_texts(rng, g, n):
+def input_texts(rng, g, n, label=''):
     """[(text, classes)]"""
     out = []
     body = g.rule('start').body
     for _ in range(n):
         r = rng.random()
+        if 'const-interpolates-input' in label and r < 0.8:
+            ws = [rng.choice(BRACE_WORDS) for _k in range(rng.choice([1, 2, 2, 2, 3]))]
+            out.append((rng.choice([' ', ' ', '\n', '\t ']).join(ws), {'brace-words'}))
+            continue
         d = derive(rng, g, body)
         if r < 0.12:
             out.append((d, {'derived-clean'}))
@@ -315,19 +333,32 @@ class InCase:
         kw = {'start': 'start', 'heart': heart}
         if variant['parseinfo']:
             kw['parseinfo'] = True
-        st = {'heart': heart, 'decisive': decisive, 'clock': None, 'ops_decisive': None}
+        st = {'heart': heart, 'decisive': decisive, 'clock': None, 'ops_decisive': None, 'stall': None}
         try:
             if variant.get('counting'):
                 ob, od = self.ops_budget(len(text))
                 inp = O.counting_text_class()(text, ob, **self.lexical)
                 st['clock'] = inp.vt_clock
                 st['ops_decisive'] = od
+            elif variant['impl'] == 'Buffer':
+                # the legacy input under the call clock as well: its cursor operations only serve as progress marks
+                # (budget: 10x the TextLines one, as its public operations call each other)
+                ob, od = self.ops_budget(len(text))
+                inp = O.counting_text_class('Buffer')(text, 10 * ob, **self.lexical)
+                st['progress'] = inp.vt_clock
+                st['ops_decisive'] = od
             else:
                 inp = self.make_input(text, variant['impl'])
             if watchdog_s is None:
                 # a case whose logical budget is capped is not judged anyway: do not spend a minute of CPU on it
                 watchdog_s = 10 if st['ops_decisive'] is False else WATCHDOG_S
-            with O.watchdog(watchdog_s):
+            import contextlib
+            stall = contextlib.nullcontext()
+            clock = st['clock'] or st.get('progress')
+            # (the api route compiles the grammar inside the call: that work advances neither clock, so it is not armed)
+            if clock is not None and variant['parser'] != 'api':
+                stall = st['stall'] = O.stall_clock(lambda: heart.calls + clock[0], STALL_LIMIT)
+            with O.watchdog(watchdog_s), stall:
                 if variant['parser'] == 'generated':
                     res = self.parser_cls().parse(inp, **kw)
                 elif variant['parser'] == 'api':
@@ -351,7 +382,8 @@ def observe_input(case, text, variant, watchdog_s=None):
     tag, res, xs = case.execute(text, variant, watchdog_s)
     heart = xs['heart']
     st = {'polls': heart.calls, 'decisive': xs['decisive'], 'pos_kind': None, 'renders': 0, 'judged': False,
-          'ops': xs['clock'][0] if xs['clock'] else None, 'ops_decisive': xs['ops_decisive']}
+          'ops': xs['clock'][0] if xs['clock'] else None, 'ops_decisive': xs['ops_decisive'],
+          'stall_gap': xs['stall'].peak_gap if xs.get('stall') is not None and xs['stall'].armed else None}
     if tag == 'ok':
         return 'ok', [], st
     e = res
@@ -360,11 +392,17 @@ def observe_input(case, text, variant, watchdog_s=None):
         if xs['ops_decisive'] is False:
             return 'StepsExceeded(cap)', [], st      # capped logical budget: counted, not judged
         return 'Watchdog', [], st
+    if isinstance(e, O.Stalled):
+        return 'Stalled', [('hang:no-progress-of-either-logical-clock',
+                            f'more than {STALL_LIMIT} Python function calls were made while neither the rule-invocation '
+                            f'clock nor the cursor-operation clock advanced (a loop outside rule calls and input '
+                            f'access that never ends), on a text of length {len(text)}')], st
     if isinstance(e, O.StepsExceeded):
         if not xs['ops_decisive']:
             return 'StepsExceeded(cap)', [], st
         sig, why = hang_mechanism(case, text, variant, 'hang:cursor-steps')
-        return cls, [(sig, f'acyclic grammar: more than {xs["clock"][1]} cursor operations (20x the no-memo bound on '
+        budget = (xs['clock'] or xs.get('progress'))[1]
+        return cls, [(sig, f'acyclic grammar: more than {budget} cursor operations (20x the no-memo bound on '
                            f'expression evaluations) on a text of length {len(text)}: a loop that never ends{why}')], st
     if isinstance(e, FailedParse):
         problems, fst = O.judge_failure(e, text)
@@ -425,8 +463,11 @@ def check_input(acc, case, text, variant, classes, origin, shrink=True):
         acc.count('in_preflight_counting')
         acc.count('in_ops_decisive' if st['ops_decisive'] else 'in_ops_capped')
         acc.peak('max_cursor_ops', st['ops'])
-        if st['ops_decisive'] and cls not in ('StepsExceeded', 'HeartDied', 'Watchdog'):
+        if st['ops_decisive'] and cls not in ('StepsExceeded', 'HeartDied', 'Watchdog', 'Stalled'):
             acc.peak('max_cursor_ops_over_bound_x100', int(100 * st['ops'] / max(1, O.ops_bound(case.g, 'start', len(text)))))
+    if st['stall_gap'] is not None:
+        acc.count('in_preflight_with_call_clock' if st['ops'] is not None else 'in_buffer_with_call_clock')
+        acc.peak('max_calls_without_clock_progress', st['stall_gap'])
     if cls == 'ok':
         acc.count('in_accepted')
     elif cls in ('HeartDied(cap)', 'StepsExceeded(cap)'):
@@ -518,14 +559,15 @@ def run_inputs(desc, acc):
             continue
         if route == 'text':
             acc.count('in_textroute_grammars')
-        texts = input_texts(rng, g, desc['texts'])
+        texts = input_texts(rng, g, desc['texts'], label)
+        stuck = 0
         for j, (text, classes) in enumerate(texts):
             if any(c in O.UNI_BREAKS for c in text):
                 classes = set(classes) | {'unicode-breaks'}
             # pre-flight through the counting input: the logical clock that also sees loops without rule calls
             pre = {'impl': 'TextLines', 'parseinfo': (i + j) % 2 == 0, 'parser': 'model', 'counting': True}
             cls, problems = check_input(acc, case, text, pre, classes, origin)
-            if cls in ('Watchdog', 'StepsExceeded', 'StepsExceeded(cap)', 'HeartDied', 'HeartDied(cap)'):
+            if cls in ('Watchdog', 'Stalled', 'StepsExceeded', 'StepsExceeded(cap)', 'HeartDied', 'HeartDied(cap)'):
                 acc.count('in_texts_not_run_further_after_budget')
                 continue
             others = [v for v in VARIANTS if v['impl'] != 'TextLines']
@@ -540,7 +582,13 @@ def run_inputs(desc, acc):
             if route == 'text' and j < 3:
                 vs.append(dict(VARIANTS[(i + 2 * j) % 6], parser='api'))
             for v in vs:
-                check_input(acc, case, text, v, classes, origin)
+                cls, _p = check_input(acc, case, text, v, classes, origin)
+                if cls in ('Watchdog', 'Stalled'):
+                    stuck += 1
+            if stuck >= 2:
+                # each further text would cost another watchdog period: the grammar is already reported / inconclusive
+                acc.count('in_grammars_abandoned_after_two_hangs')
+                break
         if sampled < 2 and label == 'random' and case.has_meta:
             sampled += 1
             acc.sample({'part': 'inputs', 'grammar': case.src, 'texts': [short(t, 60) for t, _ in texts][:5],
@@ -624,6 +672,16 @@ def templates():
     A(('left-recursion', "start = start 'a' | 'a' ;\n"))
     A(('self-call', "start = start ;\n"))
     A(('self-include', "start = >start 'a' ;\n"))
+    # includes that reach their own rule through @override (non-recursive on paper: a follow-up over budget IS a hang)
+    A(('nonrec:override-includes-itself', "start = 'x' ;\n@override\nstart = >start 'y' ;\n"))
+    A(('nonrec:override-include-cycle', "b = 'x' ;\nstart = >b 'y' ;\n@override\nb = >start ;\n"))
+    A(('nonrec:override-includes-base', "b = 'x' ;\nstart = >b 'y' ;\n@override\nb = 'z' ;\n"))
+    for k, rx in enumerate(['a{99999999999999999999}', 'a{2,99999999999999999999}', '(?:a{1,65536}){99999}',
+                            '(' * 120 + 'a' + ')' * 120, '[a-' + chr(0x10ffff) + ']{4294967296}']):
+        A((f'huge-regex:pattern:{k}', f"start = /{rx}/ ;\n"))
+        A((f'huge-regex:whitespace:{k}', f"@@whitespace :: /{rx}/\nstart = 'a' ;\n"))
+        A((f'huge-regex:string:{k}', f"@@eol_comments :: ?'{rx}'\nstart = 'a' ;\n"))
+    A(('nonrec:const-interpolates-followup', "start = n:w m:w k:`{n}` {/./} ;\nw = /\\S+/ ;\n"))
     for k, body in enumerate(["( 'a'", "'a' )", "[ 'a'", "'a' ]", "{ 'a'", "'a' }", "{ 'a' }+ )", "( [ 'a' ) ]", "((('a'))",
                               "'a' | | 'b'", "| 'a'", "'a' |", "'a' ; ;", "= 'a'"]):
         A((f'unbalanced:{k}', f"start = {body} ;\n"))
@@ -867,7 +925,8 @@ def superlinear_series(text, settings, per_try=1.5, max_cut=48):
     return [round(x, 2) for x in measured] + ['>%gs' % per_try] * (len(seq) - k)
 
 
-FOLLOWUP_TEXTS = ['', 'a', 'a b', '+', 'a\r\nb', '\x00', 'true 1 x', '1.+5', 'a' * 50, '\x85a', 'a,a', 'b b c']
+FOLLOWUP_TEXTS = ['', 'a', 'a b', '+', 'a\r\nb', '\x00', 'true 1 x', '1.+5', 'a' * 50, '\x85a', 'a,a', 'b b c', 'x y',
+                  '{m} {n}', '{n}{n} a']
 
 
 def followup(acc, model, gtext, rng, origin):
@@ -882,7 +941,8 @@ def followup(acc, model, gtext, rng, origin):
         try:
             # the mutated grammar may be recursive: no static bound, so a fixed logical budget (not judged when exceeded)
             inp = O.counting_text_class()(text, 8000, config=model.config)
-            with O.watchdog(WATCHDOG_S):
+            clock = inp.vt_clock
+            with O.watchdog(WATCHDOG_S), O.stall_clock(lambda: heart.calls + clock[0], STALL_LIMIT):
                 model.parse(inp, heart=heart, parseinfo=pi)
             acc.count('gr_followup:ok')
             continue
@@ -897,9 +957,13 @@ def followup(acc, model, gtext, rng, origin):
             problems, fst = O.judge_failure(exc, text)
             acc.count('render_calls', fst['renders'])
             acc.count('gr_followup_failures_judged')
-        elif isinstance(exc, (HeartDied, RecursionError)):
+        elif isinstance(exc, O.Stalled):
+            problems = [('hang:no-progress-of-either-logical-clock',
+                         f'more than {STALL_LIMIT} Python function calls while neither the rule-invocation clock nor the '
+                         f'cursor-operation clock advanced')]
+        elif isinstance(exc, (HeartDied, RecursionError)) and 'nonrec' not in str(origin):
             acc.count('gr_followup_recursion_or_budget(C03/C16 domain)')
-        elif isinstance(exc, (O.Watchdog, O.StepsExceeded)) and 'nonrec' in str(origin):
+        elif isinstance(exc, (O.Watchdog, O.StepsExceeded, HeartDied, RecursionError)) and 'nonrec' in str(origin):
             problems = [('hang:followup-of-nonrecursive-template', f'a parse with a non-recursive grammar exceeded its budget ({cls})')]
         elif isinstance(exc, (O.Watchdog, O.StepsExceeded)):
             acc.count('gr_followup_budget(possibly recursive grammar: not judged)')
